@@ -9,7 +9,6 @@ import (
 	"go/constant"
 	"go/token"
 	"go/types"
-	"math"
 	"path/filepath"
 	"sort"
 	"strconv"
@@ -32,7 +31,7 @@ type c09 struct {
 func checkC09(c *Ctx) {
 	c.Rule("C09.R1", "the ellipsoid, datum, prime-meridian and unit tables and the named numeric constants of package proj equal the bundled proj4js 2.3.12 source (same keys; numbers equal as float64; towgs84 element-wise)")
 	c.Rule("C09.R2", "no constant division of two integer constants with a non-integer quotient is used in a floating-point expression (it would be evaluated as integer division)")
-	c.Rule("C09.R3", "in the PROJ.4 string parser every parameter that proj4js multiplies by D2R ends up multiplied by deg2rad exactly once on every path of its case, and no other numeric parameter is")
+	c.Rule("C09.R3", "model evaluation with a symbolic parameter value: for every PROJ.4 key that the bundled proj4js multiplies by D2R, proj.Parse of `+key=P` stores P × deg2rad (once) in the fields that depend on P; for the other numeric keys no field is P × deg2rad")
 	c.Rule("C09.R6", "7-parameter datum shift: on every path the three output ordinates are computed simultaneously from the same inputs (no output is an operand of another); each output is +1·own ordinate ± p[3+k]·other ordinate (k the third axis) with an antisymmetric coupling matrix, translated by p[axis]; the inverse shift uses the transposed matrix, the opposite translation sign and divides by the scale the forward one multiplies by")
 	c.Rule("C09.R7", "eccentricity arguments: with SR.E : e, SR.Es : e², sqrt(e²) : e, e·e : e², 1−(B/A)² : e², every helper parameter receives the same one of the two at all typed call sites")
 	c.Rule("C09.R8", "the NewTransform pipeline applies each reference's parameters once and mirrored around the datum shift (unit, prime meridian, angle unit, projection member, axis), and every source-side stage reads the one reference the coordinates are currently expressed in")
@@ -54,11 +53,11 @@ func checkC09(c *Ctx) {
 	c.Alias("C08.R2", "C09.R8")
 	c08mirror(c)
 	c.Alias("C08.R2", "")
-	c.Floor("C09.R8", 6)
+	c.Floor("C09.R8", 4)
 	a.eccentricity()
 	c.Floor("C09.R7", 4)
-	c.Floor("C09.R6", 8)
-	c.Floor("C09.R1", 70)
+	c.Floor("C09.R6", 5)
+	c.Floor("C09.R1", 60)
 	c.Floor("C09.R2", 1)
 	c.Floor("C09.R3", 12)
 	c.Floor("C09.R4", 1)
@@ -422,159 +421,7 @@ func (a *c09) angleUnits() {
 	for _, k := range []string{"x_0", "y_0", "k_0", "k", "a", "b", "rf", "to_meter", "zone"} {
 		numeric[k] = true
 	}
-	// the parser: the function called by Parse for strings starting with '+' — find the switch on the key
-	var fd *ast.FuncDecl
-	var sw *ast.SwitchStmt
-	for _, fn := range c.P.RepoFuncs() {
-		if c.P.DeclPkg(fn) != a.p {
-			continue
-		}
-		d := c.P.Decl(fn)
-		ast.Inspect(d.Body, func(n ast.Node) bool {
-			s, ok := n.(*ast.SwitchStmt)
-			if !ok || s.Tag == nil {
-				return true
-			}
-			hits := 0
-			for _, cl := range s.Body.List {
-				for _, e := range cl.(*ast.CaseClause).List {
-					if k, ok := constString(a.info, e); ok && deg[k] {
-						hits++
-					}
-				}
-			}
-			if hits >= 3 && sw == nil {
-				sw, fd = s, d
-			}
-			return true
-		})
-	}
-	if sw == nil {
-		c.Unk("C09.R3", "proj#proj4-parser", token.NoPos, "the PROJ.4 key switch was not found")
-		return
-	}
-	d2r := a.p.Types.Scope().Lookup("deg2rad")
-	isD2R := func(e ast.Expr) bool {
-		if d2r != nil && objOf(a.info, e) == d2r {
-			return true
-		}
-		if v := constOf(a.info, e); v != nil {
-			if f, ok := constFloat(v); ok && math.Abs(f-math.Pi/180) < 1e-18 {
-				return true
-			}
-		}
-		return false
-	}
-	hasD2RFactor := func(e ast.Expr) bool {
-		found := false
-		ast.Inspect(e, func(n ast.Node) bool {
-			if b, ok := n.(*ast.BinaryExpr); ok && b.Op == token.MUL && (isD2R(b.X) || isD2R(b.Y)) {
-				found = true
-			}
-			return true
-		})
-		return found
-	}
-	seen := map[string]bool{}
-	for _, cl := range sw.Body.List {
-		cc := cl.(*ast.CaseClause)
-		for _, e := range cc.List {
-			key, ok := constString(a.info, e)
-			if !ok || (!deg[key] && !numeric[key]) {
-				continue
-			}
-			seen[key] = true
-			cons := "proj#proj4-param(" + key + ")"
-			// path analysis over the clause body: state per assigned SR field: "deg" / "rad" / "rad2"
-			bad := ""
-			assigned := map[string]bool{}
-			cli := &FactsClient{}
-			fieldOf := func(l ast.Expr) string {
-				if sel, ok := unparen(l).(*ast.SelectorExpr); ok {
-					if s := a.info.Selections[sel]; s != nil {
-						if v, ok := s.Obj().(*types.Var); ok && v.IsField() && isFloat64(v.Type()) {
-							return v.Name()
-						}
-					}
-				}
-				return ""
-			}
-			cli.OnStmt = func(n ast.Node, s Facts) Facts {
-				as, ok := n.(*ast.AssignStmt)
-				if !ok {
-					return s
-				}
-				for i, l := range as.Lhs {
-					f := fieldOf(l)
-					if f == "" {
-						continue
-					}
-					assigned[f] = true
-					switch as.Tok {
-					case token.ASSIGN, token.DEFINE:
-						delete(s, "rad:"+f)
-						delete(s, "rad2:"+f)
-						rhs := as.Rhs[min(i, len(as.Rhs)-1)]
-						if len(as.Rhs) == len(as.Lhs) && hasD2RFactor(rhs) {
-							s["rad:"+f] = true
-						}
-					case token.MUL_ASSIGN:
-						if isD2R(as.Rhs[0]) {
-							if s["rad:"+f] {
-								s["rad2:"+f] = true
-							}
-							s["rad:"+f] = true
-						}
-					}
-				}
-				return s
-			}
-			endState := Facts{}
-			first := true
-			cli.OnReturn = func(r *ast.ReturnStmt, s Facts) {
-				if r != nil {
-					return // error returns inside the clause
-				}
-				if first {
-					endState, first = s.Copy(), false
-				} else {
-					endState = endState.Meet(s)
-				}
-			}
-			fl := &Flow[Facts]{C: cli, Info: a.info}
-			fl.Run(&ast.BlockStmt{List: cc.Body}, Facts{})
-			var fs []string
-			for f := range assigned {
-				fs = append(fs, f)
-			}
-			sort.Strings(fs)
-			for _, f := range fs {
-				switch {
-				case deg[key] && endState["rad2:"+f]:
-					bad = fmt.Sprintf("+%s: %s is multiplied by deg2rad twice", key, f)
-				case deg[key] && !endState["rad:"+f]:
-					bad = fmt.Sprintf("+%s: on some path %s keeps a value in degrees (proj4js applies `* D2R` to every branch), so an angle in degrees is used as radians", key, f)
-				case !deg[key] && endState["rad:"+f]:
-					bad = fmt.Sprintf("+%s: %s is multiplied by deg2rad although proj4js treats it as a plain number", key, f)
-				}
-			}
-			if len(fs) == 0 {
-				c.Unk("C09.R3", cons, cc.Pos(), "no SR field is assigned in this case")
-			} else if bad != "" {
-				c.Bad("C09.R3", cons, cc.Pos(), "%s", bad)
-			} else if deg[key] {
-				c.OK("C09.R3", cons, cc.Pos(), "%v in radians on every path", fs)
-			} else {
-				c.OK("C09.R3", cons, cc.Pos(), "%v not scaled", fs)
-			}
-		}
-	}
-	for k := range deg {
-		if !seen[k] {
-			c.Bad("C09.R3", "proj#proj4-param("+k+")", sw.Pos(), "proj4js parses +%s (an angle) but the Go parser has no case for it", k)
-		}
-	}
-	_ = fd
+	c09angleModel(c, deg, numeric)
 }
 
 // ---------------------------------------------------------------- R4
